@@ -1,47 +1,39 @@
 (* C19 — property theorems only: pinned statement, `exact`, Print Assumptions.
    `ua` is the oracle for char::is_alphanumeric beyond ASCII, `env` the process
-   environment (std::env::var); both arbitrary. *)
+   environment (std::env::var); both arbitrary.  The model is the one-pass code of fix
+   cc9466f. *)
 From Coq Require Import List NArith Bool.
 Import ListNotations.
-From L4 Require Import Common.Str Model.EnvExpand Proofs.EnvExpandSpec Proofs.EnvExpand.
+From L4 Require Import Common.Str Model.EnvExpand Proofs.EnvExpandSpec Proofs.EnvExpand Proofs.EnvExpandOld.
 Local Open Scope N_scope.
 
+(* THE PROPERTY, for every path string and every environment (values may contain anything,
+   '$' and whole references included): the result is the one-pass expansion - every
+   well-formed reference to a set variable replaced by that variable's value, every other
+   segment (references to unset variables, malformed / unterminated references, all other
+   text) left as it is.  `Ok` = no panic. *)
+Theorem C19_expand_is_one_pass :
+  forall ua env p, expand ua env p = Ok (expand_spec ua env p).
+Proof. exact expand_is_one_pass. Qed.
+Print Assumptions C19_expand_is_one_pass.
+
 (* Expansion never panics on any path string: every byte offset the code slices at
-   (split_at, &path[start..end]) is a character boundary inside the string. *)
+   (split_at, &path[copied..match_start], &path[copied..]) is a character boundary inside the
+   string and copied <= match_start. *)
 Theorem C19_expand_total :
   forall ua env p, expand ua env p <> Panic.
 Proof. exact expand_total. Qed.
 Print Assumptions C19_expand_total.
 
-(* The code's loop is exactly: for each well-formed reference segment of the ORIGINAL path,
-   in order, if its variable is set, replace all occurrences of its text in the output so far. *)
-Theorem C19_expand_as_segments :
-  forall ua env p, expand ua env p = Ok (run_segs env (segments ua p) p).
-Proof. exact expand_as_segments. Qed.
-Print Assumptions C19_expand_as_segments.
-
-(* The property, outside the known-finding class: with '$'-free values and no forged
-   reference the result is the one-pass expansion - every well-formed reference to a set
-   variable replaced by its value, every other segment (references to unset variables,
-   malformed / unterminated references, all other text) left as it is. *)
-Theorem C19_expand_is_one_pass :
-  forall ua env,
-    values_dollar_free env ->
-    forall p, NoForgedRef ua env p = true ->
-    expand ua env p = Ok (expand_spec ua env p).
-Proof. exact expand_is_one_pass. Qed.
-Print Assumptions C19_expand_is_one_pass.
-
-(* The segments of the spec partition the path: printed without substitution they give the
-   path back, so "left unchanged" in expand_spec is byte-for-byte. *)
+(* The segments of the spec partition the path: their texts concatenated give the path back,
+   so "left as it is" in expand_spec is byte-for-byte. *)
 Theorem C19_segments_partition :
-  forall ua env p, out_d env [] (segments ua p) = p.
-Proof. exact segments_print. Qed.
+  forall ua p, concat (map seg_text (segments ua p)) = p.
+Proof. exact segments_partition. Qed.
 Print Assumptions C19_segments_partition.
 
 (* What a well-formed reference is: "$ENV{" name "}" where name is a non-empty run of
-   alphanumerics, '_' and '.', not beginning with '.'; the model's scanner and the spec's
-   recogniser agree. *)
+   alphanumerics, '_' and '.' (the maximal one), not beginning with '.'. *)
 Theorem C19_reference_shape :
   forall ua s n rest,
     ref_at ua s = Some (n, rest) ->
@@ -49,46 +41,53 @@ Theorem C19_reference_shape :
 Proof. exact ref_at_some. Qed.
 Print Assumptions C19_reference_shape.
 
-(* No reference to a set variable: the path comes back unchanged (no hypothesis on values). *)
-Theorem C19_expand_unset_identity :
+(* No reference to a set variable: the path comes back unchanged. *)
+Theorem C19_unset_identity :
   forall ua env p,
     (forall n, In (Ref n) (segments ua p) -> env n = None) -> expand ua env p = Ok p.
-Proof. exact expand_unset_identity. Qed.
-Print Assumptions C19_expand_unset_identity.
+Proof.
+  intros ua env p H. rewrite expand_is_one_pass. f_equal. exact (spec_unset_identity ua env p H).
+Qed.
+Print Assumptions C19_unset_identity.
 
 (* A '$'-free prefix (the temp directory the harness prepends) takes no part in the expansion,
    so the correspondence may run the model on the generated part of the path alone. *)
-Theorem C19_expand_prefix :
+Theorem C19_prefix :
   forall ua env pre p,
-    dollar_free pre ->
-    expand ua env (pre ++ p) = match expand ua env p with Ok s => Ok (pre ++ s) | Panic => Panic end.
-Proof. exact expand_prefix. Qed.
-Print Assumptions C19_expand_prefix.
+    dollar_free pre -> expand ua env (pre ++ p) = Ok (pre ++ expand_spec ua env p).
+Proof.
+  intros ua env pre p H. rewrite expand_is_one_pass. f_equal. exact (spec_prefix ua env pre p H).
+Qed.
+Print Assumptions C19_prefix.
 
-(* The faithful model does NOT satisfy the property for every '$'-free environment: the
-   sequential replace-all expands a reference forged by an earlier substitution
-   (known finding F-C19-forged-ref).  A = "ENV{B}", B = "vb", path "x$$ENV{A}-$ENV{B}":
-   the code gives "xvb-vb", one pass gives "x$ENV{B}-vb". *)
-Theorem C19_expand_refuted :
+(* Record of known finding F-C19-forged-ref (fixed by cc9466f): the PRE-FIX algorithm
+   `old_expand` (sequential replace-all on the rewritten output) did not satisfy the property:
+   A = "ENV{B}", B = "vb", path "x$$ENV{A}-$ENV{B}" gave "xvb-vb", one pass gives "x$ENV{B}-vb". *)
+Theorem C19_old_expand_refuted :
   exists ua env p,
     values_dollar_free env /\
-    expand ua env p = Ok [120;118;98;45;118;98] /\
+    old_expand ua env p = Ok [120;118;98;45;118;98] /\
     expand_spec ua env p = [120;36;69;78;86;123;66;125;45;118;98] /\
     NoForgedRef ua env p = false.
-Proof. exact expand_refuted. Qed.
-Print Assumptions C19_expand_refuted.
+Proof. exact old_expand_refuted. Qed.
+Print Assumptions C19_old_expand_refuted.
 
-(* Non-vacuity of C19_expand_is_one_pass: "é$ENV{A}/$ENV{U}$ENV{.x}$ENV{A" with A = "v{}", U unset
-   is outside the class and expands to "év{}/$ENV{U}$ENV{.x}$ENV{A"; "$$ENV{A}" with A = "ENV{B}"
-   (B never referenced) is outside the class too. *)
+(* ... and it was right exactly outside that class. *)
+Theorem C19_old_expand_is_one_pass :
+  forall ua env,
+    values_dollar_free env ->
+    forall p, NoForgedRef ua env p = true ->
+    old_expand ua env p = Ok (expand_spec ua env p).
+Proof. exact old_expand_is_one_pass. Qed.
+Print Assumptions C19_old_expand_is_one_pass.
+
+(* Concrete instances: the regression witness under the current code; a path with a non-ASCII
+   literal, a set variable whose value holds '$' and a whole reference, an unset variable, a
+   name with illegal first character, an unterminated tail. *)
 Example C19_examples :
   let ua := fun c => c =? 233 in
-  let env := lookup [([65], [118;123;125]); ([66], [119])] in
+  expand ua (lookup wit_tbl) wit_path = Ok [120;36;69;78;86;123;66;125;45;118;98] /\
+  let env := lookup [([65], [36;69;78;86;123;66;125]); ([66], [119])] in
   let p := [233; 36;69;78;86;123;65;125; 47; 36;69;78;86;123;85;125; 36;69;78;86;123;46;120;125; 36;69;78;86;123;65] in
-  values_dollar_free env /\ NoForgedRef ua env p = true /\
-  expand ua env p = Ok ([233; 118;123;125; 47; 36;69;78;86;123;85;125; 36;69;78;86;123;46;120;125; 36;69;78;86;123;65]) /\
-  NoForgedRef ua (lookup [([65], [69;78;86;123;66;125]); ([66], [119])]) [36; 36;69;78;86;123;65;125] = true.
-Proof.
-  cbv zeta. split; [apply lookup_dollar_free; vm_compute; reflexivity|].
-  vm_compute. repeat split; reflexivity.
-Qed.
+  expand ua env p = Ok ([233; 36;69;78;86;123;66;125; 47; 36;69;78;86;123;85;125; 36;69;78;86;123;46;120;125; 36;69;78;86;123;65]).
+Proof. vm_compute. split; reflexivity. Qed.
